@@ -100,22 +100,26 @@ ReaderUnch == UNCHANGED <<mtu, pos, budget, batch, sent, out, eof, fed, feedclos
 
 -----------------------------------------------------------------------------
 (* Reader: ChunkReader.ReadChunk(size).                                     *)
-(* A message that is closed and fully consumed is skipped (io.ReadFull      *)
-(* returns io.EOF with n = 0, r.r = nil, ReadChunk calls itself).           *)
-RECURSIVE Norm(_)
-Norm(p) ==
-    IF /\ p.i <= Len(pipes)
-       /\ pipes[p.i].kind = "msg" /\ pipes[p.i].closed /\ p.off = pipes[p.i].len
-    THEN Norm([i |-> p.i + 1, off |-> 0])
-    ELSE p
-
 StartOf(i) == LET RECURSIVE F(_) F(j) == IF j = 0 THEN 0 ELSE F(j - 1) + pipes[j].len IN F(i - 1)
+BytesBefore(p) == StartOf(p.i) + p.off                       \* value bytes in front of a position
+YieldsBefore(p) == Cardinality({j \in 1..(p.i - 1) : pipes[j].kind = "yield"})
 
 (* The set of outcomes ReadChunk(size) may have in the current state; empty *)
-(* = the call blocks.  Each outcome: [out, key, n, kv, pos].                *)
+(* = the call blocks.  Each outcome: [out, key, n, kv, pos, yield].         *)
+(*  - no pipe left: io.EOF once the writer closed, else wait                *)
+(*  - a yield marker (a pipe closed at once): consumed, ErrSizeTooSmall     *)
+(*  - inside a message: no room for a value byte -> ErrSizeTooSmall, nothing*)
+(*    consumed; room and enough bytes (or the message closed) -> a chunk;   *)
+(*    message closed and fully read (io.ReadFull returns io.EOF, n = 0) ->  *)
+(*    r.r = nil and ReadChunk calls itself on the next pipe.                *)
+(*  As in the code, the reader learns that a message ended either with the  *)
+(*  short chunk that ends it (io.ErrUnexpectedEOF: r.r = nil at once, the   *)
+(*  position moves to the next pipe) or, when the last chunk was full, by   *)
+(*  the next read that has room; with no room it answers TooSmall without   *)
+(*  looking (so a yield that follows costs one extra, empty batch).         *)
 NoKey == [id |-> "", len |-> 0]
-ReadOutcomes(size) ==
-    LET p == Norm(pos) IN
+RECURSIVE RO(_, _)
+RO(p, size) ==
     IF p.i > Len(pipes)
     THEN IF wdone THEN {[out |-> "eof", key |-> NoKey, n |-> 0, kv |-> 0, pos |-> p, yield |-> FALSE]} ELSE {}
     ELSE LET m == pipes[p.i] IN
@@ -124,21 +128,25 @@ ReadOutcomes(size) ==
       ELSE
         LET room  == Room(m.key, size)
             avail == m.len - p.off
+            done  == m.closed /\ avail = 0
             small == [out |-> "small", key |-> NoKey, n |-> 0, kv |-> 0, pos |-> p, yield |-> FALSE]
-            chunk(n) == [out |-> "chunk", key |-> m.key, n |-> n, kv |-> KVSize(m.key, n),
-                         pos |-> [i |-> p.i, off |-> p.off + n], yield |-> FALSE]
-            det == IF avail >= room THEN {chunk(room)}
-                   ELSE IF m.closed /\ avail > 0 THEN {chunk(avail)}
+            chunk(n, q) == [out |-> "chunk", key |-> m.key, n |-> n, kv |-> KVSize(m.key, n), pos |-> q, yield |-> FALSE,
+                            i |-> p.i, off |-> p.off]
+            det == IF avail >= room THEN {chunk(room, [i |-> p.i, off |-> p.off + room])}
+                   ELSE IF m.closed THEN {chunk(avail, [i |-> p.i + 1, off |-> 0])}
                    ELSE {}
         IN IF room <= 0 THEN {small}
+           ELSE IF done THEN RO([i |-> p.i + 1, off |-> 0], size)
            ELSE det \cup (IF det # {} /\ p.off = 0 /\ size < mtu /\ size < RawKeyLen(m.key) + 7 THEN {small} ELSE {})
+ReadOutcomes(size) == RO(pos, size)
 
 (* One iteration of the packing loop of exchangeServiceInfoRound.           *)
 Apply(r) ==
     /\ pos' = r.pos
-    /\ last' = [out |-> r.out, key |-> r.key, n |-> r.n, kv |-> r.kv, size |-> budget, yield |-> r.yield, pos0 |-> Norm(pos), pos1 |-> r.pos]
+    /\ last' = [out |-> r.out, key |-> r.key, n |-> r.n, kv |-> r.kv, size |-> budget, yield |-> r.yield,
+                 b0 |-> BytesBefore(pos), b1 |-> BytesBefore(r.pos), y0 |-> YieldsBefore(pos), y1 |-> YieldsBefore(r.pos)]
     /\ CASE r.out = "chunk" ->
-              LET c == [key |-> r.key, n |-> r.n, kv |-> r.kv, i |-> r.pos.i, off |-> r.pos.off - r.n,
+              LET c == [key |-> r.key, n |-> r.n, kv |-> r.kv, i |-> r.i, off |-> r.off,
                         b |-> Len(sent) + 1, size |-> budget] IN
               /\ batch' = Append(batch, c)
               /\ out' = Append(out, c)
@@ -239,7 +247,8 @@ FitsBudget ==
 
 (* ErrSizeTooSmall never consumes data (a yield marker is not data).        *)
 SmallIsPure ==
-    (last.out = "small" /\ ~last.yield) => (last.pos1 = last.pos0)
+    /\ (last.out = "small" /\ ~last.yield) => (last.b1 = last.b0 /\ last.y1 = last.y0)
+    /\ (last.out = "small" /\ last.yield)  => (last.b1 = last.b0 /\ last.y1 = last.y0 + 1)
 
 (* A yield separates batches: chunks of messages before and after a yield   *)
 (* marker never share a batch.                                              *)
